@@ -844,6 +844,77 @@ def corner_cases(run, st):
 # ------------------------------------------------------------------------------------------------ driver
 
 
+def fixed_compositions(run: Run):
+    """Hand-written compositions the random positions do not reach: a user-defined operator that occurs only INSIDE A CONTROL-FLOW BODY of
+    a model that is then inlined into a program which does not use the operator's domain itself (the surrounding model must import the
+    domain, the node must arrive verbatim in the nested body, the model must pass the checker); and a variadic input list the caller
+    goes on modifying after the call (the node holds what the list held at the call)."""
+    import onnx
+    import spox.opset.ai.onnx.v17 as op17
+    from spox import Tensor, argument, build, inline
+    from harness.opaque_node import Pack, Twice
+
+    n = 0
+
+    def twice(x):
+        return Twice(Twice.Attributes(), Twice.Inputs(x)).outputs.Y
+
+    def nodes_at(g, path="main"):
+        for nd in g.node:
+            yield path, nd
+            for a in nd.attribute:
+                if a.type == onnx.AttributeProto.GRAPH:
+                    yield from nodes_at(a.g, path + "/" + nd.op_type + "." + a.name)
+
+    for where in ("if-branch", "loop-body", "top-level"):
+        n += 1
+        try:
+            with warnings.catch_warnings():
+                warnings.simplefilter("ignore")
+                x = argument(Tensor(np.float32, (2,)))
+                c = argument(Tensor(np.bool_, ()))
+                if where == "if-branch":
+                    (y,) = op17.if_(c, then_branch=lambda: [twice(x)], else_branch=lambda: [op17.neg(x)])
+                elif where == "loop-body":
+                    y = op17.loop(op17.const(np.array(2, np.int64)), v_initial=[x], body=lambda i, k, a: [k, twice(a)])[0]
+                else:
+                    y = twice(x)
+                inner = build({"x": x, "c": c}, {"y": y})
+                a, b = argument(Tensor(np.float32, (2,))), argument(Tensor(np.bool_, ()))
+                r = inline(inner)(x=a, c=b)["y"]
+                outer = build({"a": a, "b": b}, {"z": op17.add(r, a)})
+                onnx.checker.check_model(outer, full_check=True)
+        except Exception as e:  # noqa: BLE001
+            run.fail("impl", f"C18/fixed/inlined-model-with-operator-in-{where}", f"a model holding a user-defined operator ({where}) cannot be inlined "
+                     f"and built: {type(e).__name__}: {str(e)[:200]}", {"scenario": where, "exception": f"{type(e).__name__}: {e}"[:600]})
+            continue
+        imports = {(o.domain, o.version) for o in outer.opset_import}
+        found = [(pth, nd) for pth, nd in nodes_at(outer.graph) if nd.op_type == "Twice"]
+        if ("verif.c18fix", 3) not in imports or len(found) != 1 or found[0][1].domain != "verif.c18fix" or len(found[0][1].input) != 1 or len(found[0][1].output) != 1:
+            run.fail("impl", f"C18/fixed/inlined-model-with-operator-in-{where}", "the user-defined operator of an inlined model is not emitted verbatim "
+                     "with its domain imported once at its version", {"scenario": where, "imports": sorted(imports), "found": [(pth, nd.domain, list(nd.input)) for pth, nd in found]})
+    # variadic input list modified after the call
+    n += 1
+    with warnings.catch_warnings():
+        warnings.simplefilter("ignore")
+        xs = [argument(Tensor(np.float32, (k + 1,))) for k in range(3)]
+        acc, outs = [], {}
+        for k, xv in enumerate(xs):
+            acc.append(xv)
+            outs[f"y{k}"] = op17.identity(Pack(Pack.Attributes(), Pack.Inputs(None, acc)).outputs.Y)
+        acc.append(xs[0])
+        try:
+            m = build({f"x{k}": v for k, v in enumerate(xs)}, outs)
+            got = [list(nd.input) for nd in m.graph.node if nd.op_type == "Pack"]
+            want = [["", "x0"], ["", "x0", "x1"], ["", "x0", "x1", "x2"]]
+            if sorted(got) != sorted(want):
+                run.fail("impl", "C18/fixed/variadic-list-modified-after-the-call", "a user-defined operator holds what the caller's list holds NOW, "
+                         "not what it held at the call", {"node_inputs": got, "expected": want})
+        except Exception as e:  # noqa: BLE001
+            run.fail("impl", "C18/fixed/variadic-list-modified-after-the-call", f"build raised {type(e).__name__}: {str(e)[:200]}", {})
+    return n
+
+
 def run(run: Run) -> int:
     run.check_theorems(PROPS, CONE, thorough_coqchk=(run.tier == "thorough"))
     n = 2000 if run.tier == "quick" else 20000
@@ -855,6 +926,7 @@ def run(run: Run) -> int:
             "second_class": 0, "renamed_attr": 0, "construct_outcome": {}}
     n_eval = 0
     corner_cases(run, st)
+    n_fixed = fixed_compositions(run)
     for case in cases:
         try:
             rec = run_case(case)
@@ -888,6 +960,7 @@ def run(run: Run) -> int:
         "built_models_decoded": sum(st["positions"].values()),
         "input_distribution": dict(hist, hook_pairs={f"{a}/{b}": c for (a, b), c in st["hooks"].items()}, positions_built=st["positions"]),
         "corner_alias_domain": st.get("alias_domain"),
+        "fixed_compositions": n_fixed,
         "samples": [{"call": j["label"], "emit": j.get("exp_emit"), "init": j["exp_init"]} for j in jobs[:3]],
     }
     return run.finish(cov, [
